@@ -300,6 +300,8 @@ void execute_status(const Plan &plan, Verdict &v, bool c11, bool c12) {
     };
     w.err_observer = [&](World &ww, int code) {
         if (!c12 || v.violated || code == 0) return;
+        // -350 announced by the library itself on overflow: whether that counts as a "queued error" is open, not asserted
+        if (code == -350) return;
         int cls = esr_class(code);
         if (cls && !(ww.reg(SCPI_REG_ESR) & cls))
             v.fail("err-class-missing", fmt("code=%d", code), fmt("error %d announced but ESR=0x%x lacks its class bit 0x%x", code, ww.reg(SCPI_REG_ESR), cls));
